@@ -51,7 +51,7 @@ fn weights(chain: bool, restart: bool) -> XWeights {
 		interrupt: 5,
 		snapshot: if restart { 5 } else { 0 },
 		restart: if restart { 3 } else { 0 },
-		resolve_cut: 7,
+		resolve_cut: 10,
 		mine_many: if chain { 1 } else { 0 },
 	}
 }
